@@ -235,3 +235,41 @@ fn inverse_shear(upper: bool) {
 }
 #[kani::proof] #[kani::unwind(6)] fn c09_inverse_shear_upper() { inverse_shear(true); }
 #[kani::proof] #[kani::unwind(6)] fn c09_inverse_shear_lower() { inverse_shear(false); }
+
+/// orient_y / orient_z (cfg libm; test-like: normalize goes through libm's powf, which the
+/// engine evaluates on concrete inputs only): for unit `new` axes and unit, non-perpendicular,
+/// non-parallel `x` from a table of Pythagorean directions the result is a rotation: the
+/// selected axis maps onto `new`, the three basis columns are orthonormal (1e-5) and the
+/// determinant is +1 (1e-5).
+#[cfg(feature = "cfg-libm")]
+#[kani::proof]
+#[kani::unwind(8)]
+fn c09_orient_is_rotation() {
+    let news: [[f32; 3]; 4] = [[0.0, 1.0, 0.0], [0.0, 0.0, -1.0], [0.6, 0.0, 0.8], [-0.8, 0.6, 0.0]];
+    let xs: [[f32; 3]; 3] = [[0.6, 0.8, 0.0], [0.0, -0.6, 0.8], [0.8, 0.0, -0.6]];
+    for n in news {
+        for x in xs {
+            let (nv, xv): (Vec3, Vec3) = (vec3(n[0], n[1], n[2]), vec3(x[0], x[1], x[2]));
+            let c = nv.cross(&xv);
+            if c.dot(&c) < 0.01 { continue; } // parallel
+            for which in 0..2 {
+                let m: M4 = if which == 0 { orient_y(nv, xv) } else { orient_z(nv, xv) };
+                let col = |j: usize| vec3(m.0[0][j], m.0[1][j], m.0[2][j]);
+                let cols: [Vec3; 3] = [col(0), col(1), col(2)];
+                // the selected axis lands on `new`
+                let img = cols[1 + which];
+                assert!((img.x() - n[0]).abs() <= 1e-6 && (img.y() - n[1]).abs() <= 1e-6 && (img.z() - n[2]).abs() <= 1e-6);
+                for i in 0..3 {
+                    for j in 0..3 {
+                        let want = if i == j { 1.0 } else { 0.0 };
+                        assert!((cols[i].dot(&cols[j]) - want).abs() <= 1e-5);
+                    }
+                }
+                assert!((m.determinant() - 1.0).abs() <= 1e-5);
+                // affine: no translation, last row (0,0,0,1)
+                assert!(m.0[3] == [0.0, 0.0, 0.0, 1.0] && m.0[0][3] == 0.0 && m.0[1][3] == 0.0 && m.0[2][3] == 0.0);
+            }
+        }
+    }
+    kani::cover!(true, "reached the end");
+}
